@@ -17,7 +17,8 @@ hand-written models tied to the code by exact ('=') correspondence:
   stops (`setColorSpace_result`); `append_aliases` records why the copy is needed,
 * draw order of the replay (`draw_order`, `later_covers_earlier`, `untouched`) and the agreement of
   the pixel specification's `owner` with that replay (`owner_replay`),
-* the gradient-units defect as an exact witness.
+* the gradient lookup of the rasterizer: pixel (c, r) evaluates its gradient at the canvas point
+  whose image is the pixel centre (`gradient_lookup_centre`, tied by the GRAD correspondence).
 Pixel coverage itself is refined against the exact winding-number specification (`PIX` verdicts). -/
 namespace C14
 open Canvas Canvas.C14 Canvas.Wn
@@ -304,19 +305,28 @@ theorem filled_reverse (r : Rule) (hr : r = .nonZero ∨ r = .evenOdd) (polys : 
   rw [wn_reverse]
   rcases hr with h | h <;> subst h <;> simp [Rule.fills]
 
-/-! ## gradient units (defect witness) -/
+/-! ## gradient lookup -/
 
-/-- rasterizer.go evaluates the gradient at pixel indices: at 4 px/mm a 0→10 mm gradient has
-reached its end colour in pixel column 10 (2.5 mm) where the specification is still at 21/80 -/
-theorem gradient_pixel_units_witness :
-    gradAtPixelImpl 0 10 10 = 1 ∧ gradAtPixelSpec 4 0 10 10 = 21 / 80 := by
+theorem gen_gradArgX (d : Rat) (c : Int) : G.gradArgX d c = gradX d c := rfl
+theorem gen_gradArgY (hpx : Int) (d : Rat) (r : Int) : G.gradArgY (Scalar.ofInt hpx) d r = gradY hpx d r := rfl
+
+/-- pixel (c, r) takes its gradient colour at the canvas point whose image under the path map
+(x·dpmm, H_px − y·dpmm) is the centre (c + 1/2, r + 1/2) of that pixel: gradients and paths live in
+the same frame (millimetres, y up), at every resolution -/
+theorem gradient_lookup_centre (hpx : Int) (dpmm : Rat) (c r : Int) (hd : dpmm ≠ 0) :
+    pixelX dpmm (gradX dpmm c) = (c : Rat) + 1 / 2 ∧ pixelY hpx dpmm (gradY hpx dpmm r) = (r : Rat) + 1 / 2 := by
+  unfold pixelX pixelY gradX gradY
   constructor
-  · norm_num [gradAtPixelImpl, gradT, clamp01]
-  · norm_num [gradAtPixelSpec, gradT, clamp01, canvasX]
+  · field_simp
+  · field_simp
+    ring
 
-/-- at 1 px/mm the two agree up to the half-pixel offset of the pixel centre -/
-theorem gradient_units_agree_at_1 (x0 x1 : Rat) (c : Int) :
-    gradAtPixelSpec 1 x0 x1 c = clamp01 (gradT x0 x1 ((c : Rat) + 1 / 2)) := by
-  simp [gradAtPixelSpec, canvasX]
+/-- and it is the canvas point shown at that pixel centre (`yflip`) -/
+theorem gradient_lookup_canvas (hpx : Int) (dpmm : Rat) (c r : Int) :
+    gradX dpmm c = canvasX dpmm ((c : Rat) + 1 / 2) ∧ gradY hpx dpmm r = canvasY hpx dpmm ((r : Rat) + 1 / 2) := by
+  unfold gradX gradY canvasX canvasY
+  constructor
+  · rfl
+  · ring
 
 end C14
